@@ -77,7 +77,7 @@ func c36list(r *report.Report) string {
 
 func TestVerifC36Run(t *testing.T) {
 	thorough := os.Getenv("VERIF_TIER") == "thorough"
-	evals, graphs := 0, 0
+	evals, graphs, nontrivial := 0, 0, 0
 	fails := map[string]int{}
 	fail := func(c, d string) {
 		fails[c]++
@@ -112,6 +112,15 @@ func TestVerifC36Run(t *testing.T) {
 			rootIDs = append(rootIDs, rnd.Intn(n))
 		}
 		graphs++
+		emitters := 0
+		for _, e := range g.emit {
+			if e > 0 {
+				emitters++
+			}
+		}
+		if emitters >= 2 { // non-trivial: diagnostics of at least two tasks have to be merged
+			nontrivial++
+		}
 		if len(samples) < 3 && gi%17 == 2 {
 			samples = append(samples, fmt.Sprintf("deps=%v emit=%v roots=%v", g.deps, g.emit, rootIDs))
 		}
@@ -183,6 +192,7 @@ func TestVerifC36Run(t *testing.T) {
 		}
 		want := ""
 		graphs++
+		nontrivial++ // every generated workspace has several files with errors
 		for par := int64(1); par <= maxPar; par++ {
 			m := map[string]*source.File{}
 			for p, text := range texts {
@@ -220,5 +230,5 @@ func TestVerifC36Run(t *testing.T) {
 	for len(samples) < 3 {
 		samples = append(samples, "")
 	}
-	fmt.Printf("BOUNDED: {\"evaluations\":%d,\"distinct\":%d,\"rule\":\"%d seeded random acyclic query graphs (2..10 queries, each reporting 0..4 diagnostics, 1..3 roots, scheduling noise via Gosched) and %d generated invalid workspaces (2..5 .proto files with unresolved types, duplicate names and numbers, missing imports) through queries.IR: parallelism 1..%d x 3 consecutive runs on one executor (runs 2 and 3 are cache hits), every report compared with the first (message, level, tag, primary span, order; rendered text for workspaces)\",\"exhaustive\":false,\"bound\":\"sampled graphs and workspaces; schedules are whatever the Go scheduler produces\",\"samples\":[%q,%q,%q]}\n", evals, graphs, ng, nw, maxPar, samples[0], samples[1], samples[2])
+	fmt.Printf("BOUNDED: {\"evaluations\":%d,\"distinct\":%d,\"rule\":\"%d seeded random acyclic query graphs (2..10 queries, each reporting 0..4 diagnostics, 1..3 roots, scheduling noise via Gosched) and %d generated invalid workspaces (2..5 .proto files with unresolved types, duplicate names and numbers, missing imports) through queries.IR: parallelism 1..%d x 3 consecutive runs on one executor (runs 2 and 3 are cache hits), every report compared with the first (message, level, tag, primary span, order; rendered text for workspaces); distinct_nontrivial counts the generated graphs/workspaces in which at least two tasks report diagnostics\",\"exhaustive\":false,\"bound\":\"sampled graphs and workspaces; schedules are whatever the Go scheduler produces\",\"samples\":[%q,%q,%q]}\n", evals, nontrivial, ng, nw, maxPar, samples[0], samples[1], samples[2])
 }
